@@ -24,7 +24,7 @@ RULE = (
 ASSUMPTIONS = ["reference tree validated against plain h5py (C01 selfcheck)",
                "not asserted: byte identity of merged vs. source files; skeleton patch indices of the merged manifest"]
 REQUIRED_CLASSES = {"all": ["followup_ge1", "source_ge3_containers", "mf_record", "plain_record",
-                            "merge_refused_uncommitted", "stub_merge_refused", "second_generation_merge", "cross_class_merge"]}
+                            "merge_refused_uncommitted", "merge_refused_uncommitted_readonly", "stub_merge_refused", "second_generation_merge", "cross_class_merge"]}
 BUDGET_S = {"quick": 900, "thorough": 3 * 3600}
 NSHARD = 16
 
@@ -68,6 +68,27 @@ def run_case(case, rec=None):
         # (the uncommitted newest container may be flushed by h5py; only the file set is compared here)
         if set(r2) != set(before_dir):
             raise Violation("C05:refused-merge-left-files", sorted(set(r2) ^ set(before_dir)), "no new files")
+        # ... also when the patch was left uncommitted on disk (close without commit, or a writer that died) and the
+        # record is looked at read-only
+        r.close(commit=False)
+        ro = None
+        try:
+            ro = cls(t.path, "r")
+            ro.merge_files(Path(d) / "early2")
+        except Exception:  # noqa: BLE001
+            classes.add("merge_refused_uncommitted_readonly")
+        else:
+            raise Violation("C05:merge-with-uncommitted-accepted:read-only", "merge_files of a record opened with 'r' whose newest "
+                            "container is an uncommitted patch succeeded", "refused")
+        finally:
+            if ro is not None:
+                ro.close()
+            else:
+                H.close_leaked_h5()
+        r3 = recutil.dir_digest(d)
+        if set(r3) != set(before_dir):
+            raise Violation("C05:refused-merge-left-files", sorted(set(r3) ^ set(before_dir)), "no new files")
+        t.rec = r = cls(t.path, "r+")
         r.commit_patch()
         sess.verify("before merge")
         merge_cls = case.get("merge_cls")
